@@ -447,9 +447,12 @@ def cases(tier):
             cs.append(dict(id="extended-failed-%s" % kind, kind='access', moment='extended-then-failed', objkind=kind, **common))
     for be in ('cvxpy', 'mosek'):
         cs.append(dict(id="status-%s" % be, kind='status', backend=be, statuses=('optimal',) + BAD, **common))
+        # the reporting path must not change what solve returns: the default verbosity (1) and the solver log (2)
+        cs.append(dict(id="status-%s-verbose" % be, kind='status', backend=be, statuses=('optimal',) + BAD,
+                       verbose=1, **common))
+        cs.append(dict(id="status-%s-verbose2" % be, kind='status', backend=be, statuses=('optimal',) + BAD,
+                       verbose=2, **common))
         if tier == 'thorough':
-            cs.append(dict(id="status-%s-verbose" % be, kind='status', backend=be, statuses=('optimal',) + BAD,
-                           verbose=1, **common))
             for kind in KINDS:
                 cs.append(dict(id="newpep-%s-%s" % (be, kind), kind='access', moment='new-pep', objkind=kind, backend=be,
                                **common))
